@@ -12,13 +12,15 @@ def UInv (c : Ctx) (stale : Bool) : Prop :=
   stale = false → ∀ u, c.uiter = some u → u.epoch = c.epoch
 
 def RegOK (c : Ctx) : Prop :=
-  ∀ a k, lookup a c.live = some k → lookup a c.owned = some k ∧ k.allocates = true
+  (∀ a k, lookup a c.live = some k → lookup a c.owned = some k ∧ k.allocates = true) ∧
+  (∀ a k, lookup a c.owned = some k → k.allocates = true → lookup a c.live = some k)
 
 theorem lookup_cons (a b : Nat) (k : Kind) (l : List (Nat × Kind)) :
     lookup a ((b, k) :: l) = if a = b then some k else lookup a l := rfl
 
-theorem lookup_filter_ne (a b : Nat) (l : List (Nat × Kind)) :
-    lookup a (l.filter (fun e => e.1 != b)) = if a = b then none else lookup a l := by
+theorem lookup_erase (a b : Nat) (l : List (Nat × Kind)) :
+    lookup a (erase b l) = if a = b then none else lookup a l := by
+  unfold erase
   induction l with
   | nil => simp [lookup]
   | cons e r ih =>
@@ -38,30 +40,103 @@ theorem uinv_init : UInv init false := by
   intro _ u hu; simp [init] at hu
 
 theorem regOK_init : RegOK init := by
-  intro a k h; simp [init, lookup] at h
+  constructor <;> (intro a k h; simp [init, lookup] at h)
 
 theorem regOK_register (c : Ctx) (addr : Nat) (k : Kind) (h : RegOK c) (hfree : lookup addr c.live = none) :
     RegOK (register c addr k) := by
-  intro a k' hl
-  unfold register at hl ⊢
-  simp only [lookup_cons]
-  by_cases ha : a = addr
-  · subst ha
-    rw [if_pos rfl]
-    cases hk : k.allocates
-    · simp [hk, hfree] at hl
-    · simp [hk, lookup_cons] at hl; rw [← hl]; exact ⟨rfl, hk⟩
-  · rw [if_neg ha]
-    cases hk : k.allocates
-    · simp [hk] at hl; exact h a k' hl
-    · simp [hk, lookup_cons, ha] at hl; exact h a k' hl
+  obtain ⟨h1, h2⟩ := h
+  constructor
+  · intro a k' hl
+    unfold register at hl ⊢
+    simp only [lookup_cons, lookup_erase]
+    by_cases ha : a = addr
+    · subst ha
+      rw [if_pos rfl]
+      cases hk : k.allocates
+      · simp [hk, hfree] at hl
+      · simp [hk, lookup_cons] at hl; rw [← hl]; exact ⟨rfl, hk⟩
+    · rw [if_neg ha, if_neg ha]
+      cases hk : k.allocates
+      · simp [hk] at hl; exact h1 a k' hl
+      · simp [hk, lookup_cons, ha] at hl; exact h1 a k' hl
+  · intro a k' ho hka
+    unfold register at ho ⊢
+    simp only [lookup_cons, lookup_erase] at ho
+    by_cases ha : a = addr
+    · subst ha
+      rw [if_pos rfl] at ho
+      have hkk : k = k' := Option.some.inj ho
+      subst hkk
+      simp [hka, lookup_cons]
+    · rw [if_neg ha, if_neg ha] at ho
+      have := h2 a k' ho hka
+      cases hk : k.allocates
+      · simpa [hk] using this
+      · simp [lookup_cons, ha]; exact this
 
 /-- `register` does not touch the iterators or the dictionary generation -/
 theorem register_uiter (c : Ctx) (a : Nat) (k : Kind) :
     (register c a k).uiter = c.uiter ∧ (register c a k).epoch = c.epoch := ⟨rfl, rfl⟩
 
 theorem regOK_of_same_heap {c c' : Ctx} (h : RegOK c) (ho : c'.owned = c.owned) (hl : c'.live = c.live) : RegOK c' := by
-  intro a k; rw [ho, hl]; exact h a k
+  unfold RegOK; rw [ho, hl]; exact h
+
+/-- `chewing_free` is total on a consistent registry: every pointer is either released (a live result) or ignored -/
+theorem freeStep_ok (c : Ctx) (hr : RegOK c) (addr : Nat) :
+    ∃ c', freeStep true c addr = .ok (c', 0) ∧ RegOK c' ∧ c'.uiter = c.uiter ∧ c'.epoch = c.epoch ∧
+      (∀ b, b ≠ addr → lookup b c'.live = lookup b c.live) ∧
+      (addr ≠ 0 → lookup addr c'.live = none ∧ lookup addr c'.owned = none) := by
+  obtain ⟨h1, h2⟩ := hr
+  unfold freeStep
+  by_cases h0 : addr = 0
+  · rw [if_pos h0]; exact ⟨c, rfl, ⟨h1, h2⟩, rfl, rfl, fun _ _ => rfl, fun h => absurd h0 h⟩
+  rw [if_neg h0]
+  cases ho : lookup addr c.owned with
+  | none =>
+    refine ⟨c, rfl, ⟨h1, h2⟩, rfl, rfl, fun _ _ => rfl, fun _ => ⟨?_, ho⟩⟩
+    cases hl : lookup addr c.live with
+    | none => rfl
+    | some k => have := (h1 addr k hl).1; rw [ho] at this; cases this
+  | some k =>
+    simp only [if_true]
+    cases hk : k.allocates
+    · -- an empty u16 slice: only the entry goes
+      simp only [Bool.not_false, if_true]
+      have hnl : lookup addr c.live = none := by
+        cases hl : lookup addr c.live with
+        | none => rfl
+        | some k' =>
+          have := h1 addr k' hl
+          rw [ho] at this
+          have hkk : k = k' := Option.some.inj this.1
+          rw [← hkk, hk] at this; cases this.2
+      refine ⟨_, rfl, ⟨?_, ?_⟩, rfl, rfl, fun _ _ => rfl, fun _ => ⟨hnl, by simp [lookup_erase]⟩⟩
+      · intro a k' hl
+        have := h1 a k' hl
+        simp only [lookup_erase]
+        by_cases ha : a = addr
+        · subst ha; rw [hnl] at hl; cases hl
+        · rw [if_neg ha]; exact this
+      · intro a k' ho' hka
+        simp only [lookup_erase] at ho'
+        by_cases ha : a = addr
+        · simp [ha] at ho'
+        · rw [if_neg ha] at ho'; exact h2 a k' ho' hka
+    · simp only [Bool.not_true, Bool.false_eq_true, if_false]
+      have hl := h2 addr k ho hk
+      simp only [hl, if_true]
+      refine ⟨_, rfl, ⟨?_, ?_⟩, rfl, rfl, ?_, fun _ => ⟨by simp [lookup_erase], by simp [lookup_erase]⟩⟩
+      · intro a k' hl'
+        simp only [lookup_erase] at hl' ⊢
+        by_cases ha : a = addr
+        · simp [ha] at hl'
+        · simp only [if_neg ha] at hl' ⊢; exact h1 a k' hl'
+      · intro a k' ho' hka
+        simp only [lookup_erase] at ho' ⊢
+        by_cases ha : a = addr
+        · simp [ha] at ho'
+        · simp only [if_neg ha] at ho' ⊢; exact h2 a k' ho' hka
+      · intro b hb; simp [lookup_erase, hb]
 
 /-! ## one step -/
 
@@ -171,32 +246,10 @@ theorem step_ok (c : Ctx) (stale : Bool) (op : Op) (hu : UInv c stale) (hr : Reg
     simp only [heapOk, Bool.and_eq_true, Option.isNone_iff_eq_none] at hh
     exact ⟨_, _, rfl, hu, regOK_register c addr k hr hh.2⟩
   | free addr =>
-    simp only [step]
-    by_cases h0 : addr = 0
-    · rw [if_pos h0]; exact ⟨_, _, rfl, hu, hr⟩
-    rw [if_neg h0]
-    cases ho : lookup addr c.owned with
-    | none => exact ⟨_, _, rfl, hu, hr⟩
-    | some k =>
-      simp only []
-      cases hk : k.allocates
-      · exact ⟨_, _, rfl, hu, hr⟩
-      · simp only [Bool.not_true, Bool.false_eq_true, if_false]
-        have hl : (lookup addr c.live).isSome = true := by
-          simp only [heapOk, ho, hk, Bool.not_true, Bool.or_false] at hh; exact hh
-        cases hlv : lookup addr c.live with
-        | none => simp [hlv] at hl
-        | some k' =>
-          have := (hr addr k' hlv).1
-          rw [ho] at this
-          have hkk : k = k' := Option.some.inj this
-          simp only [hkk, if_true]
-          refine ⟨_, _, rfl, hu, ?_⟩
-          intro a k'' hl'
-          simp only [lookup_filter_ne] at hl'
-          by_cases ha : a = addr
-          · simp [ha] at hl'
-          · simp only [if_neg ha] at hl'; exact hr a k'' hl'
+    obtain ⟨c', hs, hr', hu1, hu2, _, _⟩ := freeStep_ok c hr addr
+    refine ⟨c', 0, hs, ?_, hr'⟩
+    intro h u hcu
+    rw [hu1] at hcu; rw [hu2]; exact hu h u hcu
 
 /-! ## histories -/
 
